@@ -5,6 +5,8 @@ package snaps
 import (
 	"bytes"
 	"fmt"
+	"os"
+	"path/filepath"
 	"strings"
 )
 
@@ -21,7 +23,7 @@ type c04Case struct {
 	API     string     `json:"api"`  // snap | yaml | json | ssnap | sjson
 	Mode    string     `json:"mode"` // env (UPDATE_SNAPS=true) | opt (Update(true))
 	Entries []c04Entry `json:"entries"`
-	Extra   string     `json:"extra,omitempty"` // "tail": an untouched entry of another test at the end
+	Extra   string     `json:"extra,omitempty"` // "tail": an untouched entry of another test at the end; "nofinalnl": the file does not end in a newline
 }
 
 type c04VP struct{ o, n string }
@@ -30,6 +32,7 @@ var c04Pairs = []c04VP{
 	{"a", "a"}, {"x\n---\ny", "x\n---\ny"},
 	{"a", "b"}, {"a", ""}, {"", "a"}, {"a", "a\nb\nc"}, {"a\nb\nc", "a"}, {"a", "---"}, {"---", "a"},
 	{"a", "$1"}, {"a", "${a}%d\\1$$"}, {"a", "t\n---\n---\nb"}, {"a", "head\n\n[TestA - 2]\ntail"}, {"head\n\n[TestB - 1]\ntail", "a"}, {"t\n---\n---\nb", "a"}, {"x\n--- \ny", "x\n--- \nz"}, {"a\n-----\nb\nfoo ---\nc", "n"}, {"a", "a\n"}, {"a\n", "a"}, {"a", "[TestA - 2]"},
+	{"a", "/-/-/-/"}, {"x\n/-/-/-/\ny", "x\n/-/-/-/\ny"},
 }
 
 var c04PairsThorough = []c04VP{
@@ -66,6 +69,8 @@ func c04Gen(c *vfCtx, emit func(c04Case)) {
 				emit(c04Case{API: "snap", Mode: mode, Entries: es})
 				if len(es) <= 2 {
 					emit(c04Case{API: "snap", Mode: mode, Entries: es, Extra: "tail"})
+					// the same file as an editor that trims the final newline would leave it
+					emit(c04Case{API: "snap", Mode: mode, Entries: es, Extra: "nofinalnl"})
 				}
 			})
 		}
@@ -101,6 +106,8 @@ func c04Gen(c *vfCtx, emit func(c04Case)) {
 }
 
 func c04Run(c *vfCtx, cs c04Case) {
+	vfParseNoFinalNL = cs.Extra == "nofinalnl"
+	defer func() { vfParseNoFinalNL = false }()
 	dir := c.newWorld()
 	call := func(v, upd string) vfCall { return vfCall{API: cs.API, Val: v, Upd: upd} }
 	standalone := cs.API == "ssnap" || cs.API == "sjson"
@@ -155,6 +162,12 @@ func c04Run(c *vfCtx, cs c04Case) {
 			m.preload("f.snap", "TestZ - 1", "tail\n\n")
 		}
 		vfWriteModelFiles(dir, m)
+		if cs.Extra == "nofinalnl" {
+			p := filepath.Join(dir, "f.snap")
+			if b, err := os.ReadFile(p); err == nil {
+				os.WriteFile(p, bytes.TrimSuffix(b, []byte("\n")), 0o644)
+			}
+		}
 	}
 	before := vfSnapDir(dir)
 	changed := 0
@@ -236,6 +249,9 @@ func c04Run(c *vfCtx, cs c04Case) {
 		pre, _ := vfParse(before["f.snap"].Data)
 		pos := 0
 		data := after["f.snap"].Data
+		if cs.Extra == "nofinalnl" && !bytes.HasSuffix(data, []byte("\n")) {
+			data = append(append([]byte{}, data...), '\n') // the last terminator has no newline after it in this file
+		}
 		for i, e := range pre {
 			if i < len(cs.Entries) && cs.Entries[i].Old != cs.Entries[i].New {
 				continue
